@@ -40,6 +40,7 @@ pub struct IncRoot {
     pub label: String,
     pub lp_native: bool,
     pub fee_kind: FeeKind,
+    /// (7 = a 60-epoch flow, both stakers claim half-way through it, then 22 epochs without a claim)
     /// setup prefix: 0 = nothing; 1 = alice & bob hold open positions; 2 = + one flow opened by carol and one tick+snapshot;
     /// 3 = like 2, then 5 more epochs (each with a snapshot; alice claims in epoch 3) so that the 4-epoch flow has ended;
     /// 4 = positions, a 130-epoch flow, then 99 epochs with snapshots and nobody claiming (claim cap boundary);
@@ -78,6 +79,8 @@ pub struct IH {
 pub struct FlowG {
     pub creator: String,
     pub funded: u128,
+    /// somebody had already claimed in the epoch in which the flow was opened, before it was opened
+    pub opened_after_claim: bool,
 }
 
 #[derive(Clone, Debug, Hash, Default)]
@@ -96,6 +99,9 @@ pub struct IG {
     pub snap_taken: bool,
     /// a position was closed in the current epoch before that epoch's snapshot was taken
     pub closed_before_snap: bool,
+    /// C13: (flow id, epoch) -> what claims have paid out for that epoch of that flow so far (a lower bound: only claims
+    /// whose transfers could be attributed to epochs one by one are entered)
+    pub paid_by_epoch: BTreeMap<(u64, u64), u128>,
 }
 
 #[derive(Clone, Debug, Serialize, Deserialize)]
@@ -195,7 +201,14 @@ impl IncScn {
             for d in ["uwhale", "uluna"] {
                 w.exec(OWNER, &hub.factory, &white_whale_std::pool_network::factory::ExecuteMsg::AddNativeTokenDecimals { denom: d.to_string(), decimals: 6 }, &[]).unwrap();
             }
-            let p = create_pair(w, &hub, [native("uwhale"), native("uluna")], Fee3::new(0, 0, 0).pool(), PairType::ConstantProduct).expect("pair");
+            let p = if r.label.contains("twin-ids") {
+                // a pair of a cw20 token and a bank coin whose denom is spelled exactly like that token's contract address
+                let t = w.new_cw20("tcc", 6, &[], OWNER);
+                w.exec(OWNER, &hub.factory, &white_whale_std::pool_network::factory::ExecuteMsg::AddNativeTokenDecimals { denom: t.clone(), decimals: 6 }, &[]).expect("twin decimals");
+                create_pair(w, &hub, [native(&t), token(&t)], Fee3::new(0, 0, 0).pool(), PairType::ConstantProduct).expect("twin pair")
+            } else {
+                create_pair(w, &hub, [native("uwhale"), native("uluna")], Fee3::new(0, 0, 0).pool(), PairType::ConstantProduct).expect("pair")
+            };
             let lp = token(&p.lp);
             (Some(p), lp)
         };
@@ -285,6 +298,58 @@ impl IncScn {
             None
         };
         IH { collector, mockdist, ifactory, incentive, helper, pair, lp, reward, fee, foreign, root: r.clone() }
+    }
+
+    /// C13, "no single claim pays a user more for an epoch than that epoch's emission": a claim sends one transfer per
+    /// (flow, epoch) with a non-zero reward, in epoch order. When there is exactly one flow with a native reward and the
+    /// number of transfers equals the number of epochs the claim can have paid for, the transfers are attributed to
+    /// epochs one by one; each must not exceed what a linear flow can emit in that epoch: the funds not yet paid out for
+    /// earlier epochs, spread evenly over the epochs that remain: floor((amount_e - paid(<e)) / (end_e - e)).
+    #[allow(clippy::too_many_arguments)]
+    fn oracle_per_epoch_payouts(&self, cx: &mut Cx, h: &IH, g: &mut IG, user: &str, resp: &cw_multi_test::AppResponse, flows_before: &[Flow], flows_after: &[Flow]) {
+        let denom = match &h.reward {
+            AssetInfo::NativeToken { denom } => denom.clone(),
+            _ => return,
+        };
+        if h.reward == h.lp || flows_before.len() != 1 || flows_after.len() != 1 || flows_before[0].flow_id != flows_after[0].flow_id {
+            cx.count("per_epoch:not_single_flow");
+            return;
+        }
+        let f = &flows_after[0];
+        let pays: Vec<u128> = resp
+            .events
+            .iter()
+            .filter(|ev| ev.ty == "transfer" && ev.attributes.iter().any(|a| a.key == "recipient" && a.value == user) && ev.attributes.iter().any(|a| a.key == "sender" && a.value == h.incentive))
+            .filter_map(|ev| ev.attributes.iter().find(|a| a.key == "amount").and_then(|a| a.value.strip_suffix(denom.as_str()).and_then(|x| x.parse::<u128>().ok())))
+            .collect();
+        let latest_end = f.asset_history.iter().next_back().map(|(_, (_, en))| *en).unwrap_or(f.end_epoch);
+        let first_weight = g.first_stake_epoch.get(user).map(|e| e + 1);
+        let from0 = match g.last_claimed.get(user) {
+            Some(e) => e + 1,
+            None => first_weight.map(|fw| fw.min(f.start_epoch)).unwrap_or(0),
+        };
+        let lo = from0.max(f.start_epoch).max(first_weight.unwrap_or(u64::MAX));
+        let hi = g.epoch.min(from0.saturating_add(99)).min(latest_end.saturating_sub(1));
+        let cands: Vec<u64> = if lo <= hi { (lo..=hi).collect() } else { vec![] };
+        if pays.len() != cands.len() {
+            cx.count("per_epoch:unattributed");
+            return;
+        }
+        cx.count("per_epoch:attributed_claims");
+        let sig = if g.flows.get(&f.flow_id).map(|x| x.opened_after_claim).unwrap_or(false) { "flow-opened-after-a-claim-in-its-first-epoch" } else { "" };
+        for (e, pay) in cands.iter().zip(pays.iter()) {
+            let (amt, end) = f.asset_history.range(..=*e).next_back().map(|(_, (a, en))| (a.u128(), *en)).unwrap_or((f.flow_asset.amount.u128(), f.end_epoch));
+            if *e >= end {
+                continue;
+            }
+            let paid_before: u128 = g.paid_by_epoch.range((f.flow_id, 0)..(f.flow_id, *e)).map(|(_, v)| *v).sum();
+            let bound = amt.saturating_sub(paid_before) / (end - *e) as u128;
+            cx.count("per_epoch:epochs_checked");
+            cx.check_sig("claim.at_most_epoch_emission", sig, *pay <= bound, || {
+                format!("flow {} (funded {}, ends {}): the claim by {} paid {} for epoch {} but {} had already been paid out for earlier epochs, so that epoch can emit at most ({} - {})/{} = {}", f.flow_id, amt, end, user, pay, e, paid_before, amt, paid_before, end - *e, bound)
+            });
+            *g.paid_by_epoch.entry((f.flow_id, *e)).or_insert(0) += *pay;
+        }
     }
 
     fn lp_funds(&self, h: &IH, w: &mut World, user: &str, amount: u128) -> Vec<Coin> {
@@ -380,6 +445,20 @@ impl Scenario for IncScn {
             for _ in 0..55 {
                 self.step(w, &h, &mut g, &IAct::Tick, &mut cx);
                 self.step(w, &h, &mut g, &IAct::Snapshot { user: MALLORY.into() }, &mut cx);
+            }
+        }
+        if r.prefix == 7 {
+            // a 60-epoch flow; both stakers claim half-way through it, then 22 epochs pass without any claim
+            let c = self.users.last().unwrap().clone();
+            self.step(w, &h, &mut g, &IAct::OpenFlow { creator: c, amount: 6_000_000, funds: "exact".into(), end_delta: 60 }, &mut cx);
+            for e in 0..52 {
+                self.step(w, &h, &mut g, &IAct::Tick, &mut cx);
+                self.step(w, &h, &mut g, &IAct::Snapshot { user: MALLORY.into() }, &mut cx);
+                if e == 29 {
+                    for u in [self.users[0].clone(), self.users[1].clone()] {
+                        self.step(w, &h, &mut g, &IAct::Claim { user: u }, &mut cx);
+                    }
+                }
             }
         }
         if r.prefix == 4 {
@@ -581,7 +660,7 @@ impl Scenario for IncScn {
                     let received = bal(w, &h.reward, &h.incentive) - ib;
                     let id = g.next_flow_id;
                     g.next_flow_id += 1;
-                    g.flows.insert(id, FlowG { creator: creator.clone(), funded: received });
+                    g.flows.insert(id, FlowG { creator: creator.clone(), funded: received, opened_after_claim: !g.claimed_in_epoch.is_empty() });
                 } else {
                     cx.count("openflow:rejected");
                 }
@@ -728,8 +807,15 @@ impl Scenario for IncScn {
             }
             IAct::Helper { user, dur } => {
                 let p = h.pair.as_ref().unwrap();
-                let d = [1000u128, 1000u128];
+                let has_cw20 = p.assets.iter().any(|a| matches!(a, AssetInfo::Token { .. }));
+                // (a pool with a cw20 side gets a lopsided deposit: more of the token than of the coin)
+                let d = if has_cw20 { [1000u128, 3000u128] } else { [1000u128, 1000u128] };
                 let assets = [asset(&p.assets[0], d[0]), asset(&p.assets[1], d[1])];
+                for (i, a) in p.assets.iter().enumerate() {
+                    if let AssetInfo::Token { contract_addr } = a {
+                        w.cw20_allow(contract_addr, user, &h.helper, d[i]);
+                    }
+                }
                 let lp_before = bal(w, &h.lp, &h.incentive);
                 let r = w.exec(
                     user,
@@ -751,6 +837,11 @@ impl Scenario for IncScn {
                     Err(e) => {
                         cx.count("helper:rejected");
                         cx.note(|| format!("rejected: {}", e.msg()));
+                        for a in p.assets.iter() {
+                            if let AssetInfo::Token { contract_addr } = a {
+                                let _ = w.exec(user, contract_addr, &cw20::Cw20ExecuteMsg::DecreaseAllowance { spender: h.helper.clone(), amount: Uint128::new(u128::MAX), expires: None }, &[]);
+                            }
+                        }
                     }
                 }
                 if c11 {
@@ -856,6 +947,9 @@ impl Scenario for IncScn {
                                 cx.check("claim.at_most_epoch_emissions", paid_f <= cap, || format!("flow {}: one claim by {} covering epochs {}..={} paid {} but those epochs can emit at most {}", f.flow_id, user, from, g.epoch, paid_f, cap));
                             }
                         }
+                        if c13 {
+                            self.oracle_per_epoch_payouts(cx, h, g, user, r.as_ref().unwrap(), &flows_before, &flows_after);
+                        }
                         g.claimed_in_epoch.insert(user.clone());
                         g.last_claimed.insert(user.clone(), g.epoch);
                     }
@@ -931,7 +1025,7 @@ impl Scenario for IncScn {
                             let total_spent = if same { spent[0] } else { spent[0] + spent[1] };
                             cx.check("open_flow.creator_pays_fee_plus_funding", total_spent == received + FLOW_FEE, || format!("creator spent {:?} but the flow got {} and the fee is {}", spent, received, FLOW_FEE));
                         }
-                        g.flows.insert(id, FlowG { creator: creator.clone(), funded: received });
+                        g.flows.insert(id, FlowG { creator: creator.clone(), funded: received, opened_after_claim: !g.claimed_in_epoch.is_empty() });
                     }
                     Err(e) => {
                         cx.count("openflow:rejected");
